@@ -783,6 +783,8 @@ def _r9(ctx):
         key = v.slice if isinstance(v, ast.Subscript) else None
         kd = [s_.value for s_ in walk_stmts(f.node.body) if isinstance(s_, ast.Assign) and isinstance(s_.targets[0], ast.Name) and
               isinstance(key, ast.Name) and s_.targets[0].id == key.id and s_.lineno < ls[0].lineno]
+        if not kd and key is not None and not isinstance(key, ast.Name):
+            kd = [key]                       # the key written in place: samples.loc[load_steps.iloc[-1]]
         ok = bool(kd) and isinstance(kd[-1], ast.Subscript) and isinstance(kd[-1].slice, ast.UnaryOp) and const_value(kd[-1].slice.operand) == 1 \
             and isinstance(kd[-1].value, ast.Attribute) and kd[-1].value.attr == "iloc"
     if ok:
